@@ -24,6 +24,8 @@ def _c02():
         ("R-EXPIRE-X2", "the sweeper removes a key only under a dominating is_expired() test of the stored value, inside the same write-lock scope", rules_expire.rule_x2),
         ("R-EXPIRE-X3", "deadline written only by the ValueMetadata setters; TTL setters are called only from dedicated TTL functions; every insert stores a fresh StoredValue or (RENAME) the one it removed", rules_expire.rule_x3),
         ("R-EXPIRE-X4", "a function that stores/clears a deadline also updates the expiry index", rules_expire.rule_x4),
+        ("R-EXPIRE-INDEXREAD", "deadlines that are reported, persisted or acted on come from the stored value's metadata: only the sweeper reads the (possibly stale) expiry index", rules_expire.rule_index_read),
+        ("R-RDB-CLOCK", "a remaining TTL is converted to the absolute deadline in the dump (and back at load) with a clock value read in the same function invocation, not one cached earlier", rules_rdb.rule_deadline_clock),
     ]
 
 
@@ -61,6 +63,8 @@ def _c09():
         ("R-RDB-TYPE", "the loader decides the value type from the opcode only (no comparison of payload bytes with a constant)", rules_rdb.rule_type),
         ("R-RDB-EXPIRED", "a record carrying an expiry is never loaded as a persistent key", rules_rdb.rule_expired_on_load),
         ("R-RDB-DB", "loader stores into the database of the last SelectDb record; the writer's selector is the database it reads from", rules_rdb.rule_rdb_db),
+        ("R-EXPIRE-INDEXREAD", "deadlines that are reported, persisted or acted on come from the stored value's metadata: only the sweeper reads the (possibly stale) expiry index", rules_expire.rule_index_read),
+        ("R-RDB-CLOCK", "a remaining TTL is converted to the absolute deadline in the dump (and back at load) with a clock value read in the same function invocation, not one cached earlier", rules_rdb.rule_deadline_clock),
     ]
 
 
@@ -110,6 +114,7 @@ def _c13():
         ("R-BLK-REGPAIR", "blocked_on_key / blocked_keys are updated together; registration and Blocked state are set together", rules_block.rule_regpair),
         ("R-DISC-SIB", "both connection-removal sites perform the same clean-up set (blocking, pub/sub, monitor)", rules_block.rule_disc_sib),
         ("R-BLK-EOF", "blocked connections are not excluded from reading (disconnect detection)", rules_block.rule_eof),
+        ("R-BLK-FIFO", "a key's waiter queue is appended at the back, served from the front and otherwise edited only by order-preserving operations", rules_block.rule_fifo),
     ]
 
 
@@ -147,6 +152,7 @@ def _c16():
         ("R-CG-CURSOR", "a delivery advances the group cursor on both sides of the NOACK test", rules_stream.rule_cg_cursor),
         ("R-CG-START", "the start position given at creation initialises the delivery cursor", rules_stream.rule_cg_start),
         ("R-ATOMIC", "group administration refused for a bad argument has no effect (no refusal after a mutation)", rules_cmd.rule_atomic("C16")),
+        ("R-CG-BOUNDS", "XPENDING's cached ID bounds are derived from the pending index (recomputed, min/max with the old bound, or stored under a comparison), and every index mutation updates them on every path", rules_stream.rule_cg_bounds),
     ]
 
 
@@ -164,7 +170,7 @@ def _c06():
         ("R-ALLOC", "memory is reserved according to a client- or wire-controlled number only when bounded by what was received / is present", rules_panic.make_taint_rule({"client", "wire"}, ("alloc",), "client+wire allocation sinks")),
         ("R-RECURSE", "client-driven recursion (RESP parser) carries a bounded depth", rules_panic.rule_recurse),
         ("R-HANG", "the command thread never sleeps for a client-controlled time; scripts run under an execution bound", rules_panic.make_taint_rule({"client", "wire"}, ("sleep",), "client-controlled sleeps")),
-        ("R-HANG-LUA", "scripts run under an instruction hook / interrupt / memory limit", rules_panic.rule_hang),
+        ("R-HANG-LUA", "before the chunk is run, eval installs an instruction hook whose callback can return Err, decided by a clock or counter", rules_panic.rule_hang),
         ("R-LOCK-L1", "no lock is re-acquired (directly or through a call) while a guard of the same lock is held", rules_panic.rule_lock_l1),
         ("R-ERRPROP", "a handler error never kills the connection (C05)", rules_conn.rule_errprop),
         ("R-RUN-FATAL", "the only errors that can propagate through `?` up to Server::run (whose Err ends the process) originate at the listening socket, never in storage, handlers, parsing or per-connection I/O (interprocedural error-origin analysis)", rules_panic.rule_run_fatal),
@@ -188,6 +194,7 @@ def _c08():
         ("R-WATCH-W2", "was_modified_since compares the stamp with the baseline and consults is_expired(); register_watch announces the watcher before reading the stamp; the bump writes the stamp", rules_tx.rule_w2),
         ("R-WATCH-W3", "the watched-key check dominates execution in EXEC and its abort edges (modified / error) execute nothing; EXEC, DISCARD, UNWATCH clear the watch set", rules_tx.rule_w3),
         ("R-TX-RESET", "see C07: EXEC/DISCARD/UNWATCH forget all watched keys on every path", rules_tx.rule_reset),
+        ("R-WATCH-W4", "modification stamps are never forgotten or reused: nothing removes entries of the shared per-key stamp map, every stamp written is a fresh value of the global counter, which only moves forward", rules_tx.rule_w4),
     ]
 
 
@@ -213,6 +220,7 @@ def _c19():
     return [
         ("R-DISPATCH", "SCAN/HSCAN/SSCAN/ZSCAN have read-only dispatcher arms reaching the engine", rules_cmd.make_dispatch_rule("C19")),
         ("R-SCAN-FILTER", "every element added to a scan result is under a successful MATCH test or under `no pattern`; expired keys and keys of another TYPE never enter SCAN's candidate list", rules_scan.rule_filter),
+        ("R-SCAN-ORDER", "every indexing of the rebuilt list by a cursor-derived position is dominated by a sort of that list, or happens only with cursor 0", rules_scan.rule_order),
         ("R-SCAN-CURSOR", "the continuation cursor is not a position in a list rebuilt from the live collection on every call (necessary for completeness under deletions)", rules_scan.rule_cursor),
         ("R-SCAN-TERM", "cursor 0 is returned on reaching the end; the position never decreases", rules_scan.rule_term),
     ]
@@ -226,6 +234,7 @@ def _c20():
         ("R-CODEC-TABLE", "the type byte the serializer writes for each variant is the byte for which the parser builds that variant; unknown bytes are errors; null forms mirrored; no unwrap on the parse path", rules_conn.rule_codec_table),
         ("R-CODEC-POS", "the incremental parser advances its position only on the Ok(Some) edge (restart-from-frame-start, the mechanism behind chunking independence)", rules_conn.rule_codec_pos),
         ("R-CRLF", "line-framed variants cannot be broken by payload bytes", rules_conn.rule_crlf),
+        ("R-CODEC-INCOMPLETE", "an aggregate parser answers `need more data` only when a sub-parser did, or from a per-element length estimate of at most 3 bytes (the shortest RESP element)", rules_conn.rule_codec_incomplete),
     ]
 
 
